@@ -108,7 +108,7 @@ def run(ctx, lean, findings):
                     pom['graphs'] = [cg.gen_termmap(rng, cols, 'graph', 'plain') for _ in range(rng.randrange(1, 3))]
         case.write_mapping()
         one_case(ctx, drv, case)
-        if ctx.tier == 'quick' and ctx.elapsed() > 75 and not ctx.escalate:
+        if not ctx.escalate and ctx.elapsed() > (75 if ctx.tier == 'quick' else 780):
             break
 
 
